@@ -30,12 +30,36 @@ def M_bm_reserve(it, ctx, args, st):
     yield st, UNIT
 
 
-def M_bm_extend(it, ctx, args, st):
-    p = args[0]
+def bm_append(st, p, add):
+    """append to a BytesMut, remembering (ghost state) the pieces the buffer was assembled from"""
     cur = sval(st, p)
-    add = sval(st, args[1])
-    st.write(p, bstr_concat(cur, add))
+    new = bstr_concat(cur, add)
+    log = st.aux.get('bm_log', ())
+    prev = next((pcs for obj, pcs in log if obj is cur), None)
+    if prev is None:
+        prev = () if bstr_py(cur) == b'' else (cur,)
+    st.aux['bm_log'] = log[-3:] + ((new, prev + (add,)),)
+    st.write(p, new)
+
+
+def bm_pieces(st, buf):
+    return next((pcs for obj, pcs in st.aux.get('bm_log', ()) if obj is buf), None)
+
+
+def M_bm_extend(it, ctx, args, st):
+    bm_append(st, args[0], sval(st, args[1]))
     yield st, UNIT
+
+
+def M_bm_put_u8(it, ctx, args, st):
+    bm_append(st, args[0], BStr((args[1],), bv(1)))
+    yield st, UNIT
+
+
+def M_percent_encode_byte(it, ctx, args, st):
+    """percent_encoding::percent_encode_byte(b): the three-byte text %XX (upper-case hex) of b"""
+    b = args[0]
+    yield st, st.ref(BStr((bv(ord('%'), 8), hexdigit(z3.Extract(7, 4, b)), hexdigit(z3.Extract(3, 0, b))), bv(3)))
 
 
 def M_bm_freeze(it, ctx, args, st):
@@ -155,6 +179,8 @@ MODELS = [
     (r'<bytes::Bytes(Mut)? as std::ops::Deref>::deref|<bytes::Bytes(Mut)? as std::convert::AsRef<\[u8\]>>::as_ref', M_bytes_deref),
     (r'bytes::BytesMut::reserve', M_bm_reserve), (r'bytes::BytesMut::extend_from_slice', M_bm_extend),
     (r'bytes::BytesMut::freeze', M_bm_freeze),
+    (r'<bytes::BytesMut as bytes::BufMut>::put_u8|bytes::BytesMut::put_u8', M_bm_put_u8), (r'<bytes::BytesMut as bytes::BufMut>::put_slice', M_bm_extend),
+    (r'percent_encoding::percent_encode_byte', M_percent_encode_byte),
     (r'<bytes::Bytes as std::convert::From<.*>>::from|bytes::Bytes::copy_from_slice|bytes::Bytes::from_static', M_bytes_from),
     (r'<bytes::Bytes as std::clone::Clone>::clone', M_bytes_clone),
     (r'percent_encoding::AsciiSet::add', M_asciiset_add), (r'percent_encoding::AsciiSet::remove', M_asciiset_remove),
